@@ -1,4 +1,5 @@
 import WellenModel.Proofs.Refine
+import WellenModel.Proofs.Raw
 /-!
 # The store refines the abstract waveform — every signal type of the VCD path
 
@@ -317,7 +318,8 @@ theorem sim_value_otherK (K : Kind) (c : Codec) (i : Nat) (e e' : Enc) (s s' : S
 /-- what a write to signal `i` must do so that encoder and specification stay in step: append the chunk of the value -/
 def Agrees (K : Kind) (ti : Nat) (si snew : SigEnc) (v : Value) : Prop :=
   K.valOK v ∧ K.fit (K.valEnc v) ∧ snew.chunks = K.enc1 (ti - si.prevTimeIdx, K.valEnc v) :: si.chunks ∧
-  snew.prevTimeIdx = ti ∧ snew.tpe = si.tpe ∧ snew.maxStates = States.join si.maxStates (K.valEnc v).1
+  snew.prevTimeIdx = ti ∧ snew.tpe = si.tpe ∧ si.maxStates.toNat ≤ snew.maxStates.toNat ∧
+  (K.valEnc v).1.toNat ≤ snew.maxStates.toNat
 
 /-- a value change of signal `i` itself: one more chunk, one more change of the specification -/
 theorem sim_value_sameK (K : Kind) (c : Codec) (i : Nat) (hbmax : c.blockMax ≤ 2 ^ 28)
@@ -354,7 +356,7 @@ theorem sim_value_sameK (K : Kind) (c : Codec) (i : Nat) (hbmax : c.blockMax ≤
         split at he
         · cases he
         · rename_i snew hadd
-          obtain ⟨hvok, hvfit, hch, hpn, htn, hmx⟩ := hagree si snew htpe hadd
+          obtain ⟨hvok, hvfit, hch, hpn, htn, hmx1, hmx2⟩ := hagree si snew htpe hadd
           have hsig : e'.signals.toList[i]? = some snew := by
             cases he
             simp only [Array.toList_set]
@@ -370,11 +372,10 @@ theorem sim_value_sameK (K : Kind) (c : Codec) (i : Nat) (hbmax : c.blockMax ≤
           · rw [hpn]; simp only [List.map_append, List.map_cons, List.map_nil, List.sum_append, List.sum_cons, List.sum_nil]
             rw [← hprev]; omega
           · intro x hx
-            rw [hmx]
             rcases List.mem_append.mp hx with hx | hx
-            · exact Nat.le_trans (hkind x hx) (join_ge_left _ _)
+            · exact Nat.le_trans (hkind x hx) hmx1
             · simp only [List.mem_singleton] at hx; subst hx
-              exact join_ge_right _ _
+              exact hmx2
           · intro x hx
             rcases List.mem_append.mp hx with hx | hx
             · exact h.fits x hx
@@ -406,21 +407,38 @@ structure KindOK (K : Kind) : Prop where
     addVcd ti value realLe si = some snew → vcdValue K.tpe value realLe = some v → Agrees K ti si snew v
   real : ∀ ti le si snew, si.tpe = K.tpe → K.tpe = .real → le.length = 8 → addReal ti le si = some snew →
     Agrees K ti si snew (.real le)
+  raw : ∀ ti st bytes si snew v, si.tpe = K.tpe → addNBit ti bytes st si = some snew → rawValue K.tpe st bytes = some v →
+    Agrees K ti si snew v
+
+/-- the specification's view of a pre-encoded write -/
+theorem spec_raw_step (types : Array SigType) (s s' : Spec.St) (j : Nat) (st : States) (b : List Nat)
+    (hs : Spec.step types s (.raw j st b) = some s') :
+    ∃ tp v, types[j]? = some tp ∧ rawValue tp st b = some v ∧ (if s.skipping then some s else record s j v) = some s' := by
+  simp only [Spec.step] at hs
+  split at hs
+  · cases hs
+  · split at hs
+    · cases hs
+    · rename_i tp htp
+      split at hs
+      · cases hs
+      · rename_i v hv
+        exact ⟨tp, v, htp, hv, hs⟩
 
 theorem sim_runK (K : Kind) (hK : KindOK K) (c : Codec) (i : Nat) (hbm : 1 ≤ c.blockMax) (hbmax : c.blockMax ≤ 2 ^ 28)
     (types : Array SigType) (hti : types[i]? = some K.tpe) (ops : List Op) :
     ∀ (e : Enc) (s : Spec.St) (l : List BInfo) (cs : List Change), SimK K c i e s l cs →
-      (∀ op ∈ ops, ∀ st b, op ≠ .raw i st b) → (∀ op ∈ ops, ∀ j v r, op = .vcd j v (some r) → r.length = 8) →
+      (∀ op ∈ ops, ∀ j v r, op = .vcd j v (some r) → r.length = 8) →
       ∀ e' s', runOps c e ops = some e' → foldSpec types ops s = some s' → ∃ l' cs', SimK K c i e' s' l' cs' := by
   induction ops with
   | nil =>
-    intro e s l cs h _ _ e' s' he hs
+    intro e s l cs h _ e' s' he hs
     simp only [runOps, Option.some.injEq] at he
     simp only [foldSpec, List.foldl_nil, Option.some.injEq] at hs
     subst he hs
     exact ⟨l, cs, h⟩
   | cons op rest ih =>
-    intro e s l cs h hraw hreal e' s' he hs
+    intro e s l cs h hreal e' s' he hs
     simp only [runOps] at he
     rw [foldSpec_cons] at hs
     cases he1 : stepOp c e op with
@@ -433,11 +451,10 @@ theorem sim_runK (K : Kind) (hK : KindOK K) (c : Codec) (i : Nat) (hbm : 1 ≤ c
       | some s1 =>
         rw [hs1] at hs
         simp only [Option.bind_some] at hs
-        have hraw' : ∀ op ∈ rest, ∀ st b, op ≠ .raw i st b := fun o ho => hraw o (List.mem_cons_of_mem _ ho)
         have hreal' : ∀ op ∈ rest, ∀ j v r, op = .vcd j v (some r) → r.length = 8 := fun o ho => hreal o (List.mem_cons_of_mem _ ho)
         suffices hstep : ∃ l1 cs1, SimK K c i e1 s1 l1 cs1 by
           obtain ⟨l1, cs1, h1⟩ := hstep
-          exact ih e1 s1 l1 cs1 h1 hraw' hreal' e' s' he hs
+          exact ih e1 s1 l1 cs1 h1 hreal' e' s' he hs
         cases op with
         | time t =>
           simp only [stepOp, Option.some.injEq] at he1
@@ -461,10 +478,15 @@ theorem sim_runK (K : Kind) (hK : KindOK K) (c : Codec) (i : Nat) (hbm : 1 ≤ c
         | raw j st b =>
           have he1' : valueChange e j (fun ti => addNBit ti b st) = some e1 := he1
           obtain ⟨_, v, hrec, _⟩ := spec_value_step types s s1 (.raw j st b) j (Or.inr (Or.inl ⟨st, b, rfl⟩)) hs1
-          have hji : j ≠ i := by
-            intro hh; subst hh
-            exact hraw (.raw j st b) (by simp) st b rfl
-          exact ⟨l, cs, sim_value_otherK K c i e e1 s s1 l cs h j hji _ he1' v hrec⟩
+          by_cases hji : j = i
+          · subst hji
+            obtain ⟨tp, v', htp, hv', hrec'⟩ := spec_raw_step types s s1 j st b hs1
+            rw [hti] at htp
+            cases htp
+            obtain ⟨cs1, h1⟩ := sim_value_sameK K c j hbmax e e1 s s1 l cs h _ he1' v' hrec'
+              (fun si snew hst hadd => hK.raw _ st b si snew v' hst hadd hv')
+            exact ⟨l, cs1, h1⟩
+          · exact ⟨l, cs, sim_value_otherK K c i e e1 s s1 l cs h j hji _ he1' v hrec⟩
         | real j le =>
           have he1' : valueChange e j (fun ti => addReal ti le) = some e1 := he1
           obtain ⟨_, v, hrec, _⟩ := spec_value_step types s s1 (.real j le) j (Or.inr (Or.inr ⟨le, rfl⟩)) hs1
@@ -496,14 +518,14 @@ theorem sim_runK (K : Kind) (hK : KindOK K) (c : Codec) (i : Nat) (hbm : 1 ≤ c
 /-! ### from the simulation to the loaded signal -/
 
 theorem store_blocks_refine_specK (K : Kind) (hK : KindOK K) (c : Codec) (i : Nat) (hbm : 1 ≤ c.blockMax) (hbmax : c.blockMax ≤ 2 ^ 28)
-    (tps : List SigType) (hti : tps[i]? = some K.tpe) (ops : List Op) (hraw : ∀ op ∈ ops, ∀ st b, op ≠ .raw i st b)
+    (tps : List SigType) (hti : tps[i]? = some K.tpe) (ops : List Op)
     (hreal : ∀ op ∈ ops, ∀ j v r, op = .vcd j v (some r) → r.length = 8)
     (e : Enc) (he : runOps c (newEnc tps) ops = some e) (s : Spec.St) (hs : foldSpec tps.toArray ops (specInit tps) = some s) :
     ∃ lf : List BInfo, (finish c e).1.blocks = lf.map (fun p => mkBlock c p.1) ∧ (∀ p ∈ lf, SigInBlockK K i p) ∧
       absAll lf 0 = ((s.changesRev.getD i []).reverse).map (encVK K) ∧
       (∀ x ∈ s.changesRev.getD i [], K.valOK x.2) := by
   obtain ⟨l, cs, h⟩ := sim_runK K hK c i hbm hbmax tps.toArray (by simpa using hti) ops (newEnc tps) (specInit tps) [] []
-    (sim_initK K c i tps hti) hraw hreal e s he hs
+    (sim_initK K c i tps hti) hreal e s he hs
   obtain ⟨si, hsi, _, hdata, _, _, hkind⟩ := h.sig
   by_cases hd : e.hasNewData = true
   · refine ⟨l ++ [(descOf e, si, cs)], ?_, ?_, ?_, h.vals⟩
@@ -611,7 +633,7 @@ theorem replay_canonK (K : Kind) (sigS : States) (xs : List (Nat × Value)) (hx 
 /-- **Store = specification, every signal type of the VCD path**: times = those of `canon` of the specification's change list,
 entries = the loader's entry for each kept change -/
 theorem store_load_canonK (K : Kind) (hK : KindOK K) (c : Codec) (i : Nat) (hbm : 1 ≤ c.blockMax) (hbmax : c.blockMax ≤ 2 ^ 28)
-    (tps : List SigType) (hti : tps[i]? = some K.tpe) (ops : List Op) (hraw : ∀ op ∈ ops, ∀ st b, op ≠ .raw i st b)
+    (tps : List SigType) (hti : tps[i]? = some K.tpe) (ops : List Op)
     (hreal : ∀ op ∈ ops, ∀ j v r, op = .vcd j v (some r) → r.length = 8)
     (e : Enc) (he : runOps c (newEnc tps) ops = some e) (s : Spec.St) (hs : foldSpec tps.toArray ops (specInit tps) = some s)
     (hsmall : ∀ b ∈ (finish c e).1.blocks, b.data.length < 2 ^ 36) :
@@ -620,7 +642,7 @@ theorem store_load_canonK (K : Kind) (hK : KindOK K) (c : Codec) (i : Nat) (hbm 
              times := (canon (s.changesRev.getD i []).reverse).map (·.1),
              entries := (canon (s.changesRev.getD i []).reverse).map (fun x => K.entry sigS (encVK K x)) } ∧
       ∀ x ∈ (s.changesRev.getD i []).reverse, WFK K sigS x.2 := by
-  obtain ⟨lf, hblocks, hin, hsem, hvals⟩ := store_blocks_refine_specK K hK c i hbm hbmax tps hti ops hraw hreal e he s hs
+  obtain ⟨lf, hblocks, hin, hsem, hvals⟩ := store_blocks_refine_specK K hK c i hbm hbmax tps hti ops hreal e he s hs
   have hfull : ∀ p ∈ lf, SigInBlockK K i p ∧ divCeil p.2.1.dataBytes.length 32 < 2 ^ 32 := by
     intro p hp
     refine ⟨hin p hp, ?_⟩
@@ -701,11 +723,14 @@ theorem strKind_ok : KindOK strKind where
         simp only [hc, ↓reduceIte, Option.some.injEq] at hv
         cases hadd
         subst hv
-        exact ⟨⟨rest, rfl⟩, trivial, rfl, rfl, hst'.symm, (join_two _).symm⟩
+        exact ⟨⟨rest, rfl⟩, trivial, rfl, rfl, hst'.symm, Nat.le_refl _, Nat.zero_le _⟩
       · cases hadd
   real := by
     intro ti le si snew _ hk
     cases hk
+  raw := by
+    intro ti st bytes si snew v _ _ hv
+    simp [rawValue, strKind] at hv
 
 /-- reals: LEB128(delta), the 8 bytes of the double -/
 def realKind : Kind where
@@ -753,13 +778,16 @@ theorem realKind_ok : KindOK realKind where
           simp only [Option.map_some, Option.some.injEq] at hv
           cases hadd
           subst hv
-          exact ⟨⟨le, rfl, h8 le rfl⟩, h8 le rfl, rfl, rfl, hst'.symm, (join_two _).symm⟩
+          exact ⟨⟨le, rfl, h8 le rfl⟩, h8 le rfl, rfl, rfl, hst'.symm, Nat.le_refl _, Nat.zero_le _⟩
       · cases hadd
   real := by
     intro ti le si snew _ _ h8 hadd
     simp only [addReal, Option.some.injEq] at hadd
     subst hadd
-    exact ⟨⟨le, rfl, h8⟩, h8, rfl, rfl, rfl, (join_two _).symm⟩
+    exact ⟨⟨le, rfl, h8⟩, h8, rfl, rfl, rfl, Nat.le_refl _, Nat.zero_le _⟩
+  raw := by
+    intro ti st bytes si snew v _ _ hv
+    simp [rawValue, realKind] at hv
 
 
 theorem oneBitEntry_inj : ∀ a b : Fin 9, oneBitEntry a.val = oneBitEntry b.val → a = b := by decide +kernel
@@ -830,11 +858,39 @@ theorem bitKind_ok : KindOK bitKind where
           | some vs =>
             simp only [hr, Option.some.injEq] at hv
             subst hv
-            exact ⟨⟨bv, rfl, hlt⟩, hlt, rfl, rfl, hst'.symm, rfl⟩
+            exact ⟨⟨bv, rfl, hlt⟩, hlt, rfl, rfl, hst'.symm, join_ge_left _ _, join_ge_right _ _⟩
   real := by
     intro ti le si snew _ hk
     cases hk
-
+  raw := by
+    intro ti st bytes si snew v hst hadd hv
+    have hst' : si.tpe = .bitvec 1 := hst
+    unfold addNBit at hadd
+    simp only [hst', ↓reduceIte, Option.some.injEq] at hadd
+    simp only [rawValue, bitKind, ↓reduceIte] at hv
+    cases bytes with
+    | nil => simp at hv
+    | cons b r =>
+      cases r with
+      | cons _ _ => simp at hv
+      | nil =>
+        simp only at hv
+        split at hv
+        · rename_i hb
+          simp only [Option.some.injEq] at hv
+          subst hv hadd
+          refine ⟨⟨b, rfl, hb.1⟩, hb.1, rfl, rfl, hst'.symm, join_ge_left _ _, ?_⟩
+          have key : ∀ (b : Fin 9), (b.val ≤ States.two.mask → (States.fromValue b.val).toNat ≤ States.two.toNat) ∧
+              (b.val ≤ States.four.mask → (States.fromValue b.val).toNat ≤ States.four.toNat) ∧
+              ((States.fromValue b.val).toNat ≤ States.nine.toNat) := by decide +kernel
+          have hk := key ⟨b, hb.1⟩
+          have : (States.fromValue b).toNat ≤ st.toNat := by
+            cases st with
+            | two => exact hk.1 hb.2
+            | four => exact hk.2.1 hb.2
+            | nine => exact hk.2.2
+          exact Nat.le_trans this (join_ge_right _ _)
+        · cases hv
 
 /-- vectors of two or more bits: LEB128(delta << 2 | kind), packed symbols -/
 def vecKind (bits : Nat) (hb2 : 2 ≤ bits) : Kind where
@@ -871,12 +927,19 @@ theorem vecKind_ok (bits : Nat) (hb2 : 2 ≤ bits) : KindOK (vecKind bits hb2) w
     intro ti value realLe si snew v hst _ hadd hv
     obtain ⟨nums, hvn, hnl, hfit, hch, hpn, htn, hmx⟩ := addVcd_value ti value realLe si snew bits hst (by omega) hadd v hv
     subst hvn
-    refine ⟨⟨nums, rfl, hnl, hfit⟩, ?_, hch, hpn, htn, hmx⟩
+    refine ⟨⟨nums, rfl, hnl, hfit⟩, ?_, hch, hpn, htn, by rw [hmx]; exact join_ge_left _ _, by rw [hmx]; exact join_ge_right _ _⟩
     show (writeNState (kindOf nums) nums none).length = divCeil bits (kindOf nums).bib
     rw [Wellen.Store.writeNState_length, hnl]
   real := by
     intro ti le si snew _ hk
     cases hk
+  raw := by
+    intro ti st bytes si snew v hst hadd hv
+    obtain ⟨syms, hvn, hsl, hfit, hch, hpn, htn, hm1, hm2⟩ := addNBit_value ti bytes st si snew bits hst (by omega) hadd v hv
+    subst hvn
+    refine ⟨⟨syms, rfl, hsl, hfit⟩, ?_, hch, hpn, htn, hm1, hm2⟩
+    show (writeNState (kindOf syms) syms none).length = divCeil bits (kindOf syms).bib
+    rw [Wellen.Store.writeNState_length, hsl]
 
 /-- the description of a signal type -/
 def kindFor (tpe : SigType) (h : ∀ b, tpe = .bitvec b → 1 ≤ b) : Kind :=
